@@ -40,11 +40,30 @@ func (o *c12Observer) WrapStreamingHandler(next StreamingHandlerFunc) StreamingH
 // that separates protocol and codec in the media type.
 var c12ExtraNames = []string{"", "x", "x+y"}
 
+// c12Passive is a second, do-nothing interceptor.
+type c12Passive struct{}
+
+func (*c12Passive) WrapUnary(next UnaryFunc) UnaryFunc { return next }
+func (*c12Passive) WrapStreamingClient(next StreamingClientFunc) StreamingClientFunc {
+	return next
+}
+func (*c12Passive) WrapStreamingHandler(next StreamingHandlerFunc) StreamingHandlerFunc {
+	return next
+}
+
 func c12Handler(kind int, obs *c12Observer, extraCodec string) *Handler {
 	opts := []HandlerOption{WithCodec(&stackCodec{}), WithCodec(&stackCodec{name: "json"}), WithCompressMinBytes(1 << 20), WithInterceptors(obs)}
 	if extraCodec != "" {
 		opts = append(opts, WithCodec(&stackCodec{name: extraCodec}))
 	}
+	// a second interceptor-carrying option, and the same option values used
+	// for another handler first, as generated service constructors do for
+	// every procedure: "exactly once" must not depend on how often the option
+	// values have been applied
+	opts = append(opts, WithInterceptors(&c12Passive{}))
+	_ = NewUnaryHandler("/pkg.Svc/Other", func(ctx context.Context, req *Request[[]byte]) (*Response[[]byte], error) {
+		return nil, nil
+	}, opts...)
 	switch kind {
 	case 0:
 		return NewUnaryHandler("/pkg.Svc/Method", func(ctx context.Context, req *Request[[]byte]) (*Response[[]byte], error) {
